@@ -171,6 +171,15 @@ func TestVerifC11Replay(t *testing.T) {
 		t.Fatal(err)
 	}
 	defer out.Close()
+	if len(toks) >= 2 && toks[0] == 2 {
+		// a client case: re-run the scripted answers against the real client.Reserve
+		var ds []c11CDesc
+		for i := 2; i+17 < len(toks)+0 && i+18 <= len(toks); i += 18 {
+			ds = append(ds, c11CDesc{toks[i], toks[i+1], toks[i+2], toks[i+3], toks[i+4], toks[i+5], toks[i+6], toks[i+7], toks[i+8], toks[i+9], toks[i+10], toks[i+11]})
+		}
+		out.Case(c11ClientCase(t, out, ds))
+		return
+	}
 	if len(toks) < 13 || toks[0] != 1 {
 		t.Fatal("no case")
 	}
